@@ -761,19 +761,25 @@ pub fn run(run: &'static Run) {
     run.budget_secs(run.pick(34.0, 540.0));
     // development aid only: VERIF_ONLY=<sub> runs a single sub-check (the vacuity guards are then skipped)
     let only = std::env::var("VERIF_ONLY").ok();
-    let want = |name: &str| only.as_deref().map(|o| o == name).unwrap_or(true);
+    let want = |name: &str| {
+        if run.over_budget() {
+            // do not even start a sub-check once the time budget is used up (reported as a cap, never as a verdict)
+            run.cap_hit(format!("time budget reached before sub-check {name} started"));
+            return false;
+        }
+        only.as_deref().map(|o| o == name).unwrap_or(true)
+    };
     // one git process costs 4 ms on an idle machine but >50 ms when other checks run next to this one, so every case
     // uses as few processes as possible: 2-4 to build, 1 ls-files, 1 per rewritten variant
     let variants_small: Vec<String> = strs(&["t3:4", "t2:2"]);
-    let variants_entries: Vec<String> = if q { variants_small.clone() } else { strs(&["t2:4", "t4:2", "eoie:4", "ieot-only:2"]) };
+    let variants_entries: Vec<String> = if q { variants_small.clone() } else { strs(&["t2:4", "t4:2", "ieot-only:4"]) };
 
     // ---- sub-check: entries ------------------------------------------------------------------------------------------
     let t12: &[&str] = &["F", "X", "L", "G", "N", "S", "V", "C123", "C23", "C12", "C13", "R"];
     let t7: &[&str] = &["F", "X", "N", "S", "C123", "C23", "R"];
-    let t4: &[&str] = &["F", "N", "S", "C123"];
     let t2: &[&str] = &["F", "C123"];
     let t1: &[&str] = &["C123"];
-    let by_size: [&[&str]; 5] = if q { [t12, t12, t2, t1, t1] } else { [t12, t12, t7, t4, t2] };
+    let by_size: [&[&str]; 5] = if q { [t12, t12, t2, t1, t1] } else { [t12, t12, t7, t2, t2] };
     run.rule(format!(
         "entries: treatments by worktree size 1..4 = {:?}; variants (index.threads layout:version) first-written + {:?}",
         &by_size[1..].iter().map(|t| t.join(",")).collect::<Vec<_>>(),
@@ -782,7 +788,7 @@ pub fn run(run: &'static Run) {
     if want("entries") {
         run.sub_with(
             "entries",
-            vkit::Opts::default().chunk(32),
+            vkit::Opts::default().chunk(16),
             |emit| {
                 for wt in worktrees(4) {
                     assignments(&wt, by_size[wt.len()], |paths| emit(Case { paths, post: String::new(), layouts: variants_entries.clone() }));
@@ -801,7 +807,7 @@ pub fn run(run: &'static Run) {
     if want("long-paths") {
         run.sub_with(
             "long-paths",
-            vkit::Opts::default().chunk(32),
+            vkit::Opts::default().chunk(16),
             |emit| {
                 let names = ["a", "4094", "4095", "4096", "4097", "zz"];
                 let mut subsets = Vec::new();
@@ -832,12 +838,12 @@ pub fn run(run: &'static Run) {
         "untracked-cache: tracked worktrees of 1..{} paths (all F) x {} of untracked files x ignore source {}; directories aged so ctime != mtime; `git status` fills the cache",
         if q { 1 } else { 2 },
         if q { "subsets <= 1 of {u, d/e/u}" } else { "subsets <= 2 (1-path worktrees) / <= 1 (2-path) of {u, a/u, d/u.ign, d/e/u, n/u, n/m/u.glob}" },
-        if q { "{none, .gitignore, info/exclude + core.excludesFile}" } else { "{none, .gitignore, d/.gitignore, info/exclude, core.excludesFile, both} (2-path worktrees: none, d/.gitignore, both)" }
+        if q { "{none, .gitignore, info/exclude + core.excludesFile}" } else { "{none, .gitignore, d/.gitignore, info/exclude, core.excludesFile, both} (2-path worktrees: none, both; pairs of untracked files: both)" }
     ));
     if want("untracked-cache") {
         run.sub_with(
             "untracked-cache",
-            vkit::Opts::default().chunk(32),
+            vkit::Opts::default().chunk(16),
             |emit| {
                 let untracked_universe: &[&str] = if q { &["u", "d/e/u"] } else { &["u", "a/u", "d/u.ign", "d/e/u", "n/u", "n/m/u.glob"] };
                 for wt in worktrees(if q { 1 } else { 2 }) {
@@ -849,7 +855,7 @@ pub fn run(run: &'static Run) {
                     } else if wt.len() == 1 {
                         &["none", "root", "sub", "info", "global", "info+global"]
                     } else {
-                        &["none", "sub", "info+global"]
+                        &["none", "info+global"]
                     };
                     let mut sets: Vec<Vec<&str>> = Vec::new();
                     enumerate::subsets(untracked_universe, 0, if q || wt.len() == 2 { 1 } else { 2 }, |s| {
@@ -860,6 +866,9 @@ pub fn run(run: &'static Run) {
                     });
                     for u in sets {
                         for ignore in ignores {
+                            if u.len() == 2 && *ignore != "info+global" {
+                                continue; // pairs of untracked files only with both exclude files
+                            }
                             if *ignore == "sub" && !wt.contains(&"d/e/f") && !u.iter().any(|p| p.starts_with("d/")) {
                                 continue; // d/ would not exist
                             }
@@ -875,7 +884,7 @@ pub fn run(run: &'static Run) {
     // ---- sub-check: tree cache + resolve undo after later index edits -------------------------------------------------
     let tree_t: &[&str] = if q { &["F", "N", "R"] } else { &["F", "N", "R", "G"] };
     run.rule(format!(
-        "tree-cache: worktrees <= {} paths x treatments {} (2-path worktrees: F,N,R) x post-ops (write-tree; then modify / remove {}; add new path {})",
+        "tree-cache: worktrees <= {} paths x treatments {} (2-path worktrees: F,R) x post-ops (write-tree; then modify / remove {}; add new path {})",
         2,
         tree_t.join(","),
         if q { "the first path (2-path worktrees: treatments F,R and modify only)" } else { "each path" },
@@ -884,13 +893,13 @@ pub fn run(run: &'static Run) {
     if want("tree-cache") {
         run.sub_with(
             "tree-cache",
-            vkit::Opts::default().chunk(32),
+            vkit::Opts::default().chunk(16),
             |emit| {
                 for wt in worktrees(2) {
                     if wt.is_empty() {
                         continue;
                     }
-                    let ts: &[&str] = if wt.len() == 2 { if q { &["F", "R"] } else { &["F", "N", "R"] } } else { tree_t };
+                    let ts: &[&str] = if wt.len() == 2 { &["F", "R"] } else { tree_t };
                     assignments(&wt, ts, |paths| {
                         let mut posts = Vec::new();
                         if !(q && wt.len() == 2) {
@@ -934,7 +943,7 @@ pub fn run(run: &'static Run) {
     if want("split-index") {
         run.sub_with(
             "split-index",
-            vkit::Opts::default().chunk(32),
+            vkit::Opts::default().chunk(16),
             |emit| {
                 for wt in worktrees(4) {
                     if wt.is_empty() {
@@ -969,7 +978,7 @@ pub fn run(run: &'static Run) {
     run.rule(format!(
         "sparse-index: worktrees with {} x treatments {} committed, `sparse-checkout set --cone --sparse-index` with cone in {{(none), a, d, d/e, a+d}}",
         if q { ">= 3 paths" } else { ">= 1 path" },
-        if q { "F" } else { "F,X (F only for >= 3 paths)" }
+        "F"
     ));
     if want("sparse-index") {
         run.sub_with(
@@ -981,7 +990,7 @@ pub fn run(run: &'static Run) {
                     if wt.len() < if q { 3 } else { 1 } {
                         continue;
                     }
-                    let ts: &[&str] = if q || wt.len() >= 3 { &["F"] } else { &["F", "X"] };
+                    let ts: &[&str] = &["F"];
                     assignments(&wt, ts, |paths| {
                         for cone in cones {
                             if cone.contains(&"a") && wt.contains(&"a") {
